@@ -355,6 +355,12 @@ class LBRun(object):
       # continuation that runs on a later turn (each turn costs 1 us of virtual time)
       pending_maybe = not pending0 and any(n.channel in self.expanded and n.channel.open_done_at is not None and
                                            loop.now() - n.channel.open_done_at < 200e-6 for n in lb._heap[1:])
+      # ... and while a channel that an expansion had added, and that has left the aperture again (its member left the
+      # server set while it was still connecting), has not finished that connect attempt: until then the balancer may
+      # still count the expansion as pending
+      pending_maybe = pending_maybe or (not pending0 and any(
+          ch in self.expanded and ch.close_steps and ch.open_calls > 0 and
+          (ch.open_done_at is None or loop.now() - ch.open_done_at < 200e-6) for ch in self.chans.created))
       healthy0 = healthy()
       total0 = lb._total
       ctx['adjust'] += 1
